@@ -172,6 +172,8 @@ def model_value(val):
     t = val["t"]
     if t == "n":
         return None
+    if t == "tpl":  # nested-template string "{{ v }}sfx": denotes the rendered TEXT
+        return val["v"] + val["sfx"]
     return val["v"]
 
 
@@ -246,39 +248,50 @@ def attrs_model(case):
         else:
             raise OutOfDomain("unknown param kind %r" % k)
 
-    final = {}  # name -> [python value, safe?]
+    parts = {}  # name -> [(python value, safe?), ...]: the value from defaults/attrs (attrs overrides) followed by every extra keyword
     for n, v in D or []:
-        final[n] = [model_value(v), bool(v.get("safe"))]
+        parts[n] = [(model_value(v), bool(v.get("safe")))]
         note(n, "defaults")
     for n, v in A or []:
-        final[n] = [model_value(v), bool(v.get("safe"))]
+        parts[n] = [(model_value(v), bool(v.get("safe")))]
         note(n, "attrs")
-    appended = set()
     for n, v in kws:
         note(n, "kw")
-        mv = model_value(v)
-        if n in final:
-            base = final[n][0]
-            def _txt(x):
-                # numbers take part in appending as their text ("appending each extra keyword value ... separated by one space");
-                # what None / True / False mean in an append is not stated anywhere
-                return str(x) if isinstance(x, (int, float)) and not isinstance(x, bool) else x
-
-            base, mv = _txt(base), _txt(mv)
-            if not isinstance(base, str) or not isinstance(mv, str):
-                raise OutOfDomain("None / bool value appended under %r" % n)
-            final[n] = [base + " " + mv, final[n][1] and bool(v.get("safe"))]
-            appended.add(n)
+        parts.setdefault(n, []).append((model_value(v), bool(v.get("safe"))))
+    appended = set()
+    final = {}  # name -> [python value (text for merged values), safe?]
+    merged_text = {}
+    for n, ps in parts.items():
+        if len(ps) == 1:
+            final[n] = [ps[0][0], ps[0][1]]
+            continue
+        appended.add(n)
+        # "appending each extra keyword value to the same-named attribute separated by one space; None / False values are
+        # omitted": None / False contribute nothing to a merged value. What True means next to other values is not stated.
+        live = [(v, sf) for v, sf in ps if v is not None and v is not False]
+        if not live:
+            final[n] = [None, False]
+        elif len(live) == 1:
+            final[n] = [live[0][0], live[0][1]]
+            if isinstance(live[0][0], str) and live[0][1]:
+                merged_text[n] = _html.unescape(live[0][0])
         else:
-            final[n] = [mv, bool(v.get("safe"))]
+            if any(v is True for v, _ in live):
+                raise OutOfDomain("True appended to / next to another value under %r" % n)
+            # every non-safe part is escaped once, a safe part (SafeString, or the rendered text of a nested template) is
+            # emitted as it is: the parsed attribute value is the space-joined TEXT of the parts
+            merged_text[n] = " ".join(_html.unescape(v) if sf else str(v) for v, sf in live)
+            final[n] = [" ".join(str(v) for v, _ in live), all(sf for _, sf in live)]
     expected, verbatim = {}, {}
     for n, (v, safe) in final.items():
         if v is None or v is False:
             continue
         if v is True:
             expected[n] = None
+        elif n in merged_text:
+            expected[n] = merged_text[n]
         elif isinstance(v, str):
-            if safe and n not in appended:
+            if safe:
                 verbatim[n] = v
                 expected[n] = _html.unescape(v)
             else:
@@ -303,6 +316,8 @@ def attrs_build(case):
         return name
 
     def expr(val, lit):
+        if val["t"] == "tpl":  # only ever placed where a template expression is written (direct keyword / aggregate)
+            return '"{{ %s }}%s"' % (var(sval(val["v"])), val["sfx"])
         return literal_src(val) if lit else var(val)
 
     def dictval(items):
@@ -619,14 +634,18 @@ def attrs_strategy():
             appended = nkw >= 2 or (nkw >= 1 and (in_a or in_d))
 
             def string_val():
-                if safe_key:
-                    return sval(draw(harmless if appended else safe_txt), safe=True)
+                if safe_key and (not appended or draw(st.integers(0, 2)) > 0):
+                    # merged values: safe and untrusted parts under one name (each part keeps its own escaping)
+                    return sval(draw(st.one_of(harmless, safe_txt) if appended else safe_txt), safe=True)
                 return sval(draw(st.one_of(hostile, hostile, harmless)))
 
             def str_or_num():
-                # appended positions: mostly strings, sometimes a number (data-count=count, tabindex=i)
-                if not safe_key and draw(st.integers(0, 9)) < 2:
+                # appended positions: mostly strings, sometimes a number (data-count=count, tabindex=i), None / False (omitted)
+                k_ = draw(st.integers(0, 11))
+                if k_ < 2:
                     return draw(number)
+                if k_ == 2:
+                    return draw(st.sampled_from([{"t": "n"}, {"t": "b", "v": False}]))
                 return string_val()
 
             def any_val():
@@ -649,7 +668,11 @@ def attrs_strategy():
             if in_a:
                 A.append([name, str_or_num() if appended else any_val()])
             for _ in range(nkw):
-                KW.append([name, str_or_num() if appended else any_val()])
+                if direct_ok(name) and draw(st.integers(0, 7)) == 0:
+                    # value written as a nested template: class="{{ v }} y" (rendered text, escaped by that rendering)
+                    KW.append([name, {"t": "tpl", "v": draw(st.one_of(hostile_ne, harmless)), "sfx": draw(st.sampled_from([" y", "", "-z", " b c"]))}])
+                else:
+                    KW.append([name, str_or_num() if appended else any_val()])
 
         def is_harmless_lit(val):
             t = val["t"]
@@ -733,6 +756,9 @@ def attrs_strategy():
         # -------- extra keywords
         for name, val in KW:
             vias = []
+            if val["t"] == "tpl":
+                params_kw.append({"k": "key", "name": name, "val": val})
+                continue
             if direct_ok(name):
                 vias += ["var", "var"]
                 if is_harmless_lit(val):
@@ -1222,6 +1248,10 @@ def self_test():
 # ===========================================================================
 # runner API
 # ===========================================================================
+
+
+# coverage-guided stage (atheris drives these Hypothesis shards, see vf/run.py): {tier: {shard kind: (shards, executions)}}
+CG = {'quick': {'attrs': (1, 500)}, 'thorough': {'attrs': (6, 15000), 'slot': (4, 12000), 'asset': (2, 15000)}}
 
 
 def plan(tier, seed, scale=1.0):
